@@ -30,7 +30,8 @@ Apply(s, r) ==
     [] r.e = "cmd" /\ r.cmd[1] \in {"send", "cancel", "start"} -> [s0 EXCEPT !.idle = FALSE]
     [] r.e = "tick" -> [s0 EXCEPT !.last = r.tick.k, !.lastatt = IF r.tick.k = "add" THEN r.tick.att ELSE -1]
     [] r.e = "step_start" ->
-         [s0 EXCEPT !.bad = IF s0.idle /\ s0.last = "add" /\ s0.lastatt >= 1 THEN "idle_announced_before_scheduled_retry"
+         [s0 EXCEPT !.idle = FALSE,       \* work resumed: only a new announcement makes the run "idle" again
+                    !.bad = IF s0.idle /\ s0.last = "add" /\ s0.lastatt >= 1 THEN "idle_announced_before_scheduled_retry"
                             ELSE IF s0.idle /\ s0.last = "add" THEN "idle_announced_before_delivered_event"
                             ELSE IF s0.idle /\ s0.last = "result" THEN "idle_announced_while_work_running"
                             ELSE @]
